@@ -1049,6 +1049,7 @@ func (e *Eng) execGo(st *State, s *ast.GoStmt) *State {
 			for i, a := range args {
 				env[fmt.Sprintf("arg%d", i)] = a
 			}
+			env["nargs"] = scalar(fmt.Sprint(len(args)), "Int", nil)
 			for _, c := range cls {
 				if c.Kind == "requires" {
 					g := e.evalSpec(st, c.Expr, env, e.oldEnv)
